@@ -1,0 +1,8 @@
+//go:build !verif
+
+package orefafs
+
+import "sync"
+
+// verifRWMutex is sync.RWMutex unless built with the verif tag.
+type verifRWMutex = sync.RWMutex
